@@ -451,3 +451,15 @@ Proof.
     split; [vm_compute; split; reflexivity|]. split; [vm_compute; reflexivity|].
     do 2 eexists; vm_compute; reflexivity.
 Qed.
+
+(* State level, the special case "ErrInvalidUTF8 reported at the very end of the message": Read then
+   leaves the frame set, raw.N = 0 and State not fragmented (case (B) of the example above).  For EVERY
+   Reader state of that kind — whatever its history, configuration, UTF8Reader state and source, valid
+   stream or not — Discard (with any fuel >= 1) returns nil, is literally reset(), leaves the source
+   untouched (not one byte read), and the Reader is at rest — hence, by C18_reader_at_rest_is_new, behaves
+   as the Reader built anew over its source, configuration and MessageState. *)
+Theorem C18_reader_discard_drained_is_reset : forall n r,
+  r_rawN r = 0 -> st_fragmented (r_state r) = false ->
+  discard (S n) r = (None, reset r) /\ r_src (reset r) = r_src r /\ at_rest (reset r).
+Proof. exact discard_drained_is_reset. Qed.
+Print Assumptions C18_reader_discard_drained_is_reset.
